@@ -84,6 +84,22 @@ def run(ctx):
         elif k < 8: reqs.append(pfam.req_print(d, r.choice(pfam.DIALECTS), t))
         elif k < 9: reqs.append("L 7 %s" % E.enhex(t))
         else: reqs.append("RT %s %s" % (d, E.enhex(t)))
+    # the rarely used statement classes and their OPTIONAL PARTS present / absent (foreign-key actions, index options, partition specs, flags): a parser that keeps the
+    # optional parts of one statement in a place that outlives the call hands them to the next statement that omits them (seeded C12-11) — the pool is answered in three
+    # orders, twice in a row and from threads, so each of these is parsed after every other one in some run
+    rare = [t for _, t in pfam.BRANCH_CORPUS] + [t for _, t in pfam.tree_texts(r.fork("rare-trees"), 60 if ctx.quick else 600, ["MYSQL", "HIVE"])]
+    fk = "CREATE TABLE c%d (a int, CONSTRAINT fk%d FOREIGN KEY (a) REFERENCES p (id)%s)"
+    rare += [fk % (i, i, opt) for i, opt in enumerate(["", " ON DELETE CASCADE", " ON UPDATE SET NULL", " ON DELETE RESTRICT ON UPDATE NO ACTION", "", " ON UPDATE CASCADE", ""])]
+    rare += ["ALTER TABLE t ADD CONSTRAINT fk FOREIGN KEY (a) REFERENCES p (id)", "ALTER TABLE t ADD CONSTRAINT fk FOREIGN KEY (a) REFERENCES p (id) ON DELETE SET NULL ON UPDATE CASCADE",
+             "CREATE TABLE i1 (a int, KEY k (a))", "CREATE TABLE i2 (a int, KEY k (a) USING BTREE COMMENT 'c' KEY_BLOCK_SIZE = 4)", "CREATE TABLE i3 (a int, UNIQUE KEY k (a(3)))",
+             "ANALYZE TABLE t COMPUTE STATISTICS", "ANALYZE TABLE t PARTITION (dt = '1') COMPUTE STATISTICS FOR COLUMNS CACHE METADATA NOSCAN", "ALTER TABLE t DROP PARTITION (dt = '1')",
+             "ALTER TABLE t DROP IF EXISTS PARTITION (dt = '2', hr = 3)", "ALTER TABLE t ADD IF NOT EXISTS PARTITION (dt = '1')", "CREATE TABLE IF NOT EXISTS x AS SELECT 1", "CREATE TABLE x AS SELECT 1",
+             "SELECT a FROM t ORDER BY a NULLS FIRST", "SELECT a FROM t ORDER BY a DESC", "SELECT SUM(a) OVER (ORDER BY b ROWS BETWEEN UNBOUNDED PRECEDING AND CURRENT ROW) FROM t", "SELECT SUM(a) OVER () FROM t",
+             "SELECT a FROM t GROUP BY a WITH ROLLUP", "SELECT a FROM t GROUP BY a", "INSERT IGNORE INTO t (a) VALUES (1)", "INSERT INTO t VALUES (1)", "SELECT CAST(a AS DECIMAL(10, 2)), CAST(b AS DECIMAL) FROM t"]
+    for t in rare:
+        d = r.choice(["MYSQL", "HIVE"])
+        reqs.append(pfam.req_parse(d, t))
+        reqs.append(pfam.req_print(d, d, t))
     # analyser requests, when those commands exist
     probe = E.run_impl(["AN tables all MYSQL %s" % E.enhex("SELECT a FROM t")])[0]
     if not probe.startswith("BADREQ"):
